@@ -87,8 +87,16 @@ pub fn install(faults: FaultMode) -> Arc<Net> {
 pub fn uninstall() {
     *CURRENT.lock().unwrap() = None;
 }
+/// Scenarios that run the code under test on their own runtime thread (tokio) instead of dsim
+/// threads set this for the duration of the run.
+pub static ALLOW_OUTSIDE_SIM: std::sync::atomic::AtomicBool = std::sync::atomic::AtomicBool::new(false);
+
+pub fn active() -> bool {
+    dsim::in_sim() || ALLOW_OUTSIDE_SIM.load(std::sync::atomic::Ordering::SeqCst)
+}
+
 fn cur() -> Option<Arc<Net>> {
-    if !dsim::in_sim() {
+    if !active() {
         return None;
     }
     CURRENT.lock().unwrap().clone()
@@ -161,6 +169,10 @@ impl Net {
         drop(st);
         dsim::notify_all();
         out
+    }
+    /// True once the code under test has closed / dropped its end of the connection.
+    pub fn local_closed(&self, conn: u64) -> bool {
+        self.st.lock().unwrap().streams.get(&conn).map(|s| s.local_closed).unwrap_or(true)
     }
     pub fn peer_write(&self, conn: u64, data: &[u8]) {
         let mut st = self.st.lock().unwrap();
@@ -310,20 +322,26 @@ impl Backend for SimBackend {
     fn stream_read(&self, sock: u64, buf: &mut [u8]) -> io::Result<usize> {
         let n = cur().ok_or_else(no_net)?;
         dsim::point("net.stream_read");
+        {
+            let st = n.st.lock().unwrap();
+            let s = st.streams.get(&sock).ok_or_else(no_net)?;
+            if s.reset {
+                return Err(io::Error::new(io::ErrorKind::ConnectionReset, "reset by peer"));
+            }
+            if s.from_peer.is_empty() {
+                if s.peer_closed {
+                    return Ok(0);
+                }
+                return Err(io::Error::new(io::ErrorKind::WouldBlock, "no data"));
+            }
+        }
+        // faults are drawn only when the read would otherwise succeed, so that the number of empty
+        // polls (timing) never shifts the fault stream
         let f = n.fault(&format!("read:{}", sock), &[("read_eintr", 50, 0), ("short_read", 150, 16)]);
         let mut st = n.st.lock().unwrap();
         let s = st.streams.get_mut(&sock).ok_or_else(no_net)?;
-        if s.reset {
-            return Err(io::Error::new(io::ErrorKind::ConnectionReset, "reset by peer"));
-        }
         if let Some(("read_eintr", _)) = f {
             return Err(io::Error::new(io::ErrorKind::Interrupted, "simulated EINTR"));
-        }
-        if s.from_peer.is_empty() {
-            if s.peer_closed {
-                return Ok(0);
-            }
-            return Err(io::Error::new(io::ErrorKind::WouldBlock, "no data"));
         }
         let mut k = buf.len().min(s.from_peer.len());
         if let Some(("short_read", arg)) = f {
